@@ -171,3 +171,7 @@
 (define-fun reUrlSafe () RegLan (re.* (re.union (re.range "a" "z") (re.range "A" "Z") (re.range "0" "9")
    (str.to_re "-") (str.to_re "_") (str.to_re ".") (str.to_re "~") (str.to_re "$") (str.to_re "&") (str.to_re "+") (str.to_re ",") (str.to_re "/") (str.to_re ":") (str.to_re ";") (str.to_re "=") (str.to_re "@"))))
 (define-fun urlSafePath ((s String)) Bool (str.in_re s reUrlSafe))
+
+; ---- C09: the two slug.PackerOption values the library itself uses, named as constants (function values are Int) ----
+(declare-fun optDereference () Int)
+(declare-fun optIgnore () Int)
